@@ -88,11 +88,7 @@ func runC14(c *mon.Ctx) {
 				for _, pre := range []uint16{u, u ^ 0x0100, 0x3000} {
 					pre := pre
 					o, _ := psatoken.NewClaims(name)
-					if q := obs.P1Of(o); q != nil {
-						q.SecurityLifeCycle = &pre
-					} else if q := obs.P2Of(o); q != nil {
-						q.SecurityLifeCycle = &pre
-					}
+					obs.SetNumField(o, "SecurityLifeCycle", int64(pre))
 					serr := o.SetSecurityLifeCycle(u)
 					c.Eval()
 					if (serr == nil) != (want >= 0) {
@@ -104,9 +100,7 @@ func runC14(c *mon.Ctx) {
 					}
 					if want < 0 && serr != nil && pre != u {
 						// a refused value must leave the previous one in place
-						if q := obs.P1Of(o); q != nil && (q.SecurityLifeCycle == nil || *q.SecurityLifeCycle != pre) {
-							bad(fmt.Sprintf("P%d.failed-Set-changed-preloaded-value", p), "changed")
-						} else if q := obs.P2Of(o); q != nil && (q.SecurityLifeCycle == nil || *q.SecurityLifeCycle != pre) {
+						if held, ok := obs.NumField(o, "SecurityLifeCycle"); !ok || held != int64(pre) {
 							bad(fmt.Sprintf("P%d.failed-Set-changed-preloaded-value", p), "changed")
 						}
 					}
